@@ -59,9 +59,10 @@ CgreenVector *discover_tests_in(const char *filename, bool verbose) {
         return NULL;
     close_file(library);
 
-    char nm_command[1000];
+    char *nm_command = (char *)malloc(strlen(NM_EXECUTABLE) + strlen(filename) + 20);
     sprintf(nm_command, "%s '%s' 2>&1", NM_EXECUTABLE, filename);
     FILE *nm_output_pipe = open_process(nm_command, "r");
+    free(nm_command);
     if (nm_output_pipe == NULL)
         return NULL;
 
